@@ -39,6 +39,10 @@ def build_geo(spec, repo):
             g.translate(list(op[1]))
         elif k == 'rotate':
             g.rotate(op[1])
+        elif k == 'snap':
+            g.snap_columns_to_layers(op[1])
+        elif k == 'snap_nearest':
+            g.snap_columns_to_nearest_layers()
         else:
             raise ValueError('unknown geometry op %r' % (k,))
     return g
@@ -174,21 +178,47 @@ def rect_spec(rng, conv=None, atm=None, nx=None, ny=None, nz=None, extent=(100.,
                      'origin': origin}, 'ops': []}
 
 
-def surface_op(rng, spec, repo, frac=0.6):
-    """random surfaces for a fraction of the columns, biased to land exactly on layer bottoms."""
+def columns_keep_a_block(g):
+    """every column still has at least one block and its cached layer count points inside the layer list"""
+    return all(c.num_layers >= 1 and c.surface > g.layerlist[-1].bottom for c in g.columnlist)
+
+
+def snap_ops(rng, spec, repo):
+    """surface edits through the snapping methods, applied to a geometry whose surfaces may already lie exactly on
+    layer boundaries (and possibly applied twice): the geometry reaches its state through a sequence of edits.
+    An op is kept only if it leaves every column at least one block."""
+    g = build_geo(spec, repo)
+    thick = min(float(l.top - l.bottom) for l in g.layerlist[1:])
+    s = copy.deepcopy(spec)
+    for op in rng.choice([[['snap', 0.3 * thick]], [['snap_nearest']], [['snap_nearest'], ['snap', 0.3 * thick]],
+                          [['snap', 0.3 * thick], ['snap', 0.45 * thick]]]):
+        t = copy.deepcopy(s); t['ops'].append(op)
+        try: ok = columns_keep_a_block(build_geo(t, repo))
+        except Exception: ok = False
+        if ok: s = t
+    return s
+
+
+def surface_op(rng, spec, repo, frac=0.6, snap=0.5):
+    """random surfaces for a fraction of the columns, biased to land exactly on layer bottoms or just above them;
+    with probability [snap] followed by the snapping methods."""
     g = build_geo(spec, repo)
     bottoms = [l.bottom for l in g.layerlist[1:]]
     top = g.layerlist[0].bottom
+    thick = min(float(l.top - l.bottom) for l in g.layerlist[1:])
     surf = {}
     for c in g.columnlist:
         if rng.random() > frac: continue
         r = rng.random()
         if r < 0.35 and len(bottoms) > 1: z = rng.choice(bottoms[:-1])          # exactly on a layer bottom
-        elif r < 0.5: z = top
+        elif r < 0.5 and len(bottoms) > 1: z = rng.choice(bottoms[:-1]) + rng.uniform(0.02, 0.25) * thick   # a thin top block
+        elif r < 0.6: z = top
         else: z = rng.uniform(bottoms[-1] + 1e-3 * (top - bottoms[-1]), top)
         surf[c.name] = float(z)
     if not surf: return spec
-    s = copy.deepcopy(spec); s['ops'].append(['surface', surf]); return s
+    s = copy.deepcopy(spec); s['ops'].append(['surface', surf])
+    if rng.random() < snap: s = snap_ops(rng, s, repo)
+    return s
 
 
 def subset_names(rng, names, lo=1):
@@ -299,6 +329,17 @@ def moves(rng, g):
     return out
 
 
+def snap_moves(rng, g):
+    """a two-step in-place edit: surfaces put exactly on layer boundaries / just above, then a snapping method"""
+    bottoms = [float(l.bottom) for l in g.layerlist[1:]]
+    if len(bottoms) < 3: return []
+    thick = min(float(l.top - l.bottom) for l in g.layerlist[1:])
+    names = [c.name for c in g.columnlist]
+    surf = {nm: (rng.choice(bottoms[:-2]) + rng.choice([0., 0., rng.uniform(0.02, 0.25) * thick]))
+            for nm in rng.sample(names, max(1, (2 * len(names)) // 3))}
+    return [['surface', surf], rng.choice([['snap', 0.3 * thick], ['snap_nearest']])]
+
+
 def apply_ops(g, ops):
     """apply geometry ops to an EXISTING object (same code path as build_geo's op loop)."""
     for op in ops:
@@ -311,5 +352,7 @@ def apply_ops(g, ops):
                 col.surface = z
                 g.set_column_num_layers(col)
             g.setup_block_name_index(); g.setup_block_connection_name_index()
+        elif k == 'snap': g.snap_columns_to_layers(op[1])
+        elif k == 'snap_nearest': g.snap_columns_to_nearest_layers()
         else: raise ValueError('unknown in-place op %r' % (k,))
     return g
